@@ -155,7 +155,7 @@ def map_roundtrip(entries):
 def main():
     t, sd = tier(), seed()
     rep = Report(PROP)
-    tmo = 30000 if t == "quick" else 300000
+    tmo = 120000 if t == "quick" else 600000
     agg = Counter()
     samples = []
     solver_time = 0.0
